@@ -4,6 +4,7 @@
  * case parameters
  *   CFG    0: no priorities  1: higher_outgoing_priority< c3, c1 > on service S1 + higher_outgoing_priority< S2 > on the server
  *          2: higher_outgoing_priority< c2 > on service S1          (one shim unit per CFG)
+ *          4: as 0, with a service without characteristics in front of S1: every handle below + 1
  *          3: as 1, with include_service< S2 > as first attribute of S1: handle 2 is the include, every handle below + 1
  *   IND    0: notification  1: indication
  *   HOW    0: request by bound value ( server.notify( value ) )  1: by UUID ( server.notify< uuid >() )
@@ -45,7 +46,7 @@ static unsigned cancelations;
 void vf_e10_env_event_cancelation(void) { ++cancelations; }
 
 static int cfg;
-#define SHIFT ((unsigned)(cfg == 3 ? 1 : 0))     /* the include attribute of configuration 3 */
+#define SHIFT ((unsigned)(cfg >= 3 ? 1 : 0))     /* the include attribute of configuration 3, the empty service of configuration 4 */
 
 /* the client's view of its subscription: Read Request on the CCCD handle */
 static unsigned read_cccd(int k)
